@@ -9,7 +9,7 @@ func init() {
 				"shared faces: exact IEEE claims on the kernels — Alt(f)+Resolution is the double Alt(f+1); float64(x)+1 is the double float64(x+1) — from which the identical edge values follow because both voxels evaluate the same expression on that value",
 				"centre: longitude within 1e-11 degrees of the exact middle of the tile, altitude exactly (f+1/2)*2^(25-v); the centre -> ID round trip in x and f then follows from C01's longitude and vertical kernels (composition argument, DESIGN §3 C02), the direct query was solver-unknown",
 			},
-			Outside: []string{"numeric correctness of the row latitudes, the y half of the centre round trip, the effect of the 1e-10 degree latitude truncation at zoom 35 (atan, sinh, log, tan: no solver theory)", "exact (bit-level) value of the longitude corners"},
+			Outside:     []string{"numeric correctness of the row latitudes, the y half of the centre round trip, the effect of the 1e-10 degree latitude truncation at zoom 35 (atan, sinh, log, tan: no solver theory)", "exact (bit-level) value of the longitude corners"},
 			Assumptions: []string{"sort.Float64s modelled as a compare-exchange network on NaN-free input", "relaxed encoding over-approximates IEEE-754 binary64 round-to-nearest"},
 		},
 		insts: func(tier string) []*Instance {
